@@ -732,6 +732,9 @@ impl<S: Service + 'static> World<S> {
     fn bad(&self) -> Vec<u64> {
         let mut bad = Vec::new();
         for s in self.subs.values() {
+            if !s.live {
+                continue; // the subscriber is gone: the publisher reclaims what it owned, nothing refers to it any more
+            }
             for (id, smp) in &s.held {
                 let (did, ok) = decode(&smp.bytes());
                 if !ok || did != *id {
